@@ -2685,6 +2685,12 @@ class Interferometer(Decomposition):
             decomp_fn = getattr(dec, mesh)
             BS1, R, BS2 = decomp_fn(self.p[0], tol=tol)
 
+            if mesh == "triangular":
+                # Reck scheme: V = T_1^-1 ... T_k^-1 D, i.e., the diagonal phases come first and
+                # are followed by the inverses of the T unitaries (handled like the second
+                # half of the rectangular mesh below)
+                BS1, BS2 = [], list(reversed(BS1))
+
             for n, m, theta, phi, _ in BS1:
                 theta = theta if np.abs(theta) >= _decomposition_tol else 0
                 phi = phi if np.abs(phi) >= _decomposition_tol else 0
